@@ -15,10 +15,17 @@ def build(repo, spec_dir, canary=False):
     b.emit(open(spec_dir + '/lang.rs').read())
     b.emit(open(spec_dir + '/pipeline.rs').read())
     b.emit('}\nmod code {\nuse super::*;\nuse super::spec::*;')
-    b.emit('''#[verifier::external_body] pub fn vx_regex_text_without_line_breaks(r: &Regex) -> (s: String) { unimplemented!() }
+    b.emit('''// ghost bookkeeping of the self-check (C08): which expression a compiled regex was printed from, and what the two checks said about it
+pub uninterp spec fn regex_source(r: Regex) -> Expression<'static>;
+pub uninterp spec fn compiles_to(text: Seq<char>) -> Expression<'static>;
+pub uninterp spec fn selfcheck_ok(e: Expression<'static>, test_cases: Seq<String>) -> bool;          // regex_matches_all_test_cases said yes for the regex of e
+pub uninterp spec fn selfcheck_rot_ok(e: Expression<'static>, test_cases: Seq<String>) -> bool;      // the rotation check left e in an arrangement that passed
+pub uninterp spec fn built_by_new_alternation(e: Expression<'static>) -> bool;
+pub uninterp spec fn erase<'a>(e: Expression<'a>) -> Expression<'static>;                          // the same tree without its lifetime (ghost only)
+#[verifier::external_body] pub fn vx_regex_text_without_line_breaks(r: &Regex) -> (s: String) ensures compiles_to(s@) == regex_source(*r) { unimplemented!() }
 impl Regex {
     // the self-check compiles the candidate pattern and unwraps: that the printer emits valid syntax is ASSUMED here (C07 lists it as not decided)
-    #[verifier::external_body] pub fn new(s: &str) -> (r: Result<Regex, ()>) ensures r is Ok { unimplemented!() }
+    #[verifier::external_body] pub fn new(s: &str) -> (r: Result<Regex, ()>) ensures r is Ok, regex_source(r->Ok_0) == compiles_to(s@) { unimplemented!() }
 }''')
     b.emit("impl<'a> Dfa<'a> {")
     b.emit('''    #[verifier::external_body]
@@ -32,20 +39,22 @@ impl Regex {
     b.trusted.append('assumed stage contract S3: Expression::from(dfa) denotes the language of dfa (elimination loop: unit elim; first loop that builds the equation system is unverified)')
     EX = "^impl<'a> Expression<'a> \\{"
     b.assumed_fn('expression.rs', 'new_literal', within=EX, ensures=[c[1] for c in E.NEW_LITERAL_CLAUSES], why='verified in unit expr against exactly this contract')
-    b.assumed_fn('expression.rs', 'new_alternation', within=EX, ensures=E.NEW_ALTERNATION_ENSURES, why='assumed in unit expr too (sort_by_key closure)')
+    b.assumed_fn('expression.rs', 'new_alternation', within=EX, ensures=E.NEW_ALTERNATION_ENSURES + ['built_by_new_alternation(erase(r))'], why='language clause verified in unit expr against exactly this text; built_by_new_alternation is ghost bookkeeping (a name for "this value came out of new_alternation")')
     b.emit("}\nimpl<'a> RegExp<'a> {")
     RX = "^impl<'a> RegExp<'a> \\{"
     b.assumed_fn('regexp.rs', 'convert_for_case_insensitive_matching', within=RX, ensures=['final(test_cases)@ == caseconv_spec(old(test_cases)@)'], why='iter().map(closure).collect_vec(); the closure body is verified in unit misc')
     b.assumed_fn('regexp.rs', 'sort', within=RX, ensures=['final(test_cases)@ == sort_spec(old(test_cases)@)'], why='std sort/dedup/sort_by; comparator verified in unit misc')
     b.assumed_fn('regexp.rs', 'grapheme_clusters', within=RX, ensures=['r@ == clusters_spec(test_cases@, *config)'], why='iterator chains, unicode-segmentation; conversion closures verified in units classify/misc')
-    b.assumed_fn('regexp.rs', 'convert_expr_to_regex', within=RX, ensures=[], why='regex crate; only feeds the self-check')
-    b.assumed_fn('regexp.rs', 'regex_matches_all_test_cases', within=RX, ensures=[], why='regex engine call; only a guard')
-    b.assumed_fn('regexp.rs', 'is_each_test_case_matched_after_rotating_alternations', within=RX, ensures=['lang(*final(expr)) == lang(*old(expr))'], why='verified in unit expr against exactly this contract (rotate.lang_preserved)')
+    b.assumed_fn('regexp.rs', 'convert_expr_to_regex', within=RX, ensures=['regex_source(r) == erase(*expr)'], why='regex crate; ghost bookkeeping: the regex was printed from this expression')
+    b.assumed_fn('regexp.rs', 'regex_matches_all_test_cases', within=RX, ensures=['r == selfcheck_ok(regex_source(*regex), test_cases@)'], why='regex engine call; ghost bookkeeping: the verdict is a function of the checked expression and the test cases')
+    b.assumed_fn('regexp.rs', 'is_each_test_case_matched_after_rotating_alternations', within=RX, ensures=['lang(*final(expr)) == lang(*old(expr))', 'r ==> selfcheck_rot_ok(erase(*final(expr)), test_cases@)'], why='language clause verified in unit expr against exactly this contract (rotate.lang_preserved); ghost bookkeeping of a positive verdict')
     W = 'words(clusters_spec(final(test_cases)@, *config))'
     b.verified_fn('regexp.rs', 'from', within=RX, props=['C07'], fname='RegExp::from',
                   clauses=[Clause('pipeline.input_prepared', 'final(test_cases)@ == prepared(old(test_cases)@, *config)', ['C10', 'C04', 'C16']),
                            Clause('pipeline.language', 'lang(r.ast) == %s' % W, ['C01', 'C02', 'C08', 'C16']),
-                           Clause('pipeline.config', 'r.config == config', ['C10'])],
+                           Clause('pipeline.config', 'r.config == config', ['C10']),
+                           Clause('pipeline.unanchored_result_passed_a_selfcheck_or_is_the_fallback',
+                                  'config.is_start_anchor_disabled && config.is_end_anchor_disabled ==> selfcheck_rot_ok(erase(r.ast), final(test_cases)@) || selfcheck_ok(erase(r.ast), final(test_cases)@) || built_by_new_alternation(erase(r.ast))', ['C08'])],
                   loops={1: ['it1.seq() == gc0', '0 <= it1.index@ <= gc0.len()',
                              ('pipeline.fallback_alternation@loop1', ['C01', 'C08', 'C16'], 'alt_lang(exprs@) == words(gc0.take(it1.index@))')]},
                   blocks=[(1, 'loop_before', '                    let ghost gc0 = grapheme_clusters@; proof { lemma_alt_lang_empty(); lemma_words_empty(); assert(gc0.take(0) =~= Seq::<GraphemeCluster>::empty()); }'),
